@@ -321,4 +321,30 @@ theorem winners_same_id (cfg : Nat → LockCfg) (k : String) (js : List Nat) (st
       intro x hx y hy
       rw [hall x hx, hall y hy]
 
+/-! ### `seconds` of an instance is changed by its own SetExpire only (round 4) -/
+
+/-- the operation does not reconfigure instance `i` -/
+def keepsSeconds (i : Nat) : Op → Bool
+  | .setExpire j _ => j ≠ i
+  | _ => true
+
+theorem step_secs_keep (cfg : Nat → LockCfg) (st : St) (i : Nat) (op : Op) (h : keepsSeconds i op = true) :
+    (step cfg st op).1.secs i = st.secs i := by
+  cases op with
+  | setExpire j v =>
+    simp [keepsSeconds] at h
+    simp [step, updN, Ne.symm h]
+  | _ => rfl
+
+theorem run_secs_keep (cfg : Nat → LockCfg) (i : Nat) (ops : List Op) :
+    ∀ st : St, (∀ op ∈ ops, keepsSeconds i op = true) → (run cfg st ops).secs i = st.secs i := by
+  induction ops with
+  | nil => intro st _; rfl
+  | cons op ops ih =>
+    intro st h
+    have h1 := ih (step cfg st op).1 (fun o ho => h o (List.mem_cons_of_mem _ ho))
+    have h2 := step_secs_keep cfg st i op (h op List.mem_cons_self)
+    simp only [run, List.foldl_cons] at h1 ⊢
+    rw [h1, h2]
+
 end GoZero.C19
